@@ -360,9 +360,13 @@ def activate_domain_and_interventions(
     if isinstance(expression, Probability):
         if not isinstance(expression, PopulationProbability):
             raise TypeError
+        children = set(expression.children) - interventions
+        if not children:
+            # every variable of the term is fixed by the intervention, so its probability is one
+            return One()
         return PopulationProbability(
             population=domain,
-            distribution=Distribution.safe(set(expression.children) - interventions),
+            distribution=Distribution.safe(children),
         ).intervene(interventions)
     if isinstance(expression, Sum):
         # TODO need full integration test to trso() function that covers this branch
@@ -379,7 +383,10 @@ def activate_domain_and_interventions(
         denominator = activate_domain_and_interventions(
             expression.denominator, interventions, domain
         )
-        return cast(Fraction, numerator / denominator).simplify()
+        quotient = numerator / denominator
+        if isinstance(quotient, Fraction):
+            return quotient.simplify()
+        return quotient
     if isinstance(expression, Product):
         # TODO need full integration test to trso() function that covers this branch
         return Product.safe(
